@@ -356,6 +356,29 @@ func main() {
 				e.Strs("parseNumErrConds", conds, "parseNum: conditions under which it returns an error")
 			}
 		}
+		// aggregationArgsFromProto: SkipWithoutTimestamp is decided PER aggregation, inside the loop over the aggregations
+		if f, err := r.Load("proxyapi/grpc_complex_search.go"); err != nil {
+			e.Missing("skipPerAggregation", err)
+		} else if fd := f.Func("", "aggregationArgsFromProto"); fd == nil {
+			e.Missing("skipPerAggregation", "aggregationArgsFromProto not found")
+		} else {
+			var exprs []string
+			inLoop := false
+			ast.Inspect(fd.Body, func(n ast.Node) bool {
+				if rs, ok := n.(*ast.RangeStmt); ok && f.Render(rs.X) == "aggs" && rs.Value != nil && f.Render(rs.Value) == "agg" {
+					ast.Inspect(rs.Body, func(m ast.Node) bool {
+						if kv, ok := m.(*ast.KeyValueExpr); ok && f.Render(kv.Key) == "SkipWithoutTimestamp" {
+							exprs = append(exprs, f.Render(kv.Value))
+							inLoop = true
+						}
+						return true
+					})
+				}
+				return true
+			})
+			e.Strs("skipPerAggregation", exprs, "aggregationArgsFromProto: value of SkipWithoutTimestamp inside `for i, agg := range aggs`")
+			_ = inLoop
+		}
 		se, err := r.Load("frac/processor/search.go")
 		if err != nil {
 			e.Missing("search.go", err)
@@ -426,5 +449,5 @@ func main() {
 			})
 			e.Strs("extractTimeRule", rule, "provideExtractTimeFunc: guard and the returned bin expressions")
 		}
-	}, "consts/consts.go", "seq/qpr.go", "frac/processor/eval_tree.go", "frac/processor/search.go", "frac/processor/aggregator.go", "frac/active_index.go", "frac/sealed_index.go", "node/sourced_node_wrapper.go", "seq/seq.go", "storeapi/grpc_search.go", "proxy/search/ingestor.go", "proxyapi/grpc_v1.go", "pkg/storeapi/store_api.pb.go")
+	}, "consts/consts.go", "seq/qpr.go", "frac/processor/eval_tree.go", "frac/processor/search.go", "frac/processor/aggregator.go", "frac/active_index.go", "frac/sealed_index.go", "node/sourced_node_wrapper.go", "seq/seq.go", "storeapi/grpc_search.go", "proxy/search/ingestor.go", "proxyapi/grpc_v1.go", "pkg/storeapi/store_api.pb.go", "proxyapi/grpc_complex_search.go")
 }
